@@ -584,6 +584,17 @@ func (w *world) stopAll() {
 func (w *world) checkForgotten() {
 	for _, n := range ctrlNames {
 		if w.eng.IsRunning(n) {
+			// one name, one running controller: anything else started under the
+			// name and never cancelled has been lost (nobody can stop it any more)
+			live := 0
+			for _, c := range w.ctrls {
+				if ctx, started := c.context(); c.name == n && started && ctx.Err() == nil {
+					live++
+				}
+			}
+			if live > 1 {
+				w.s.Violate("C13/several-controllers-running-under-one-name", fmt.Sprintf("%d controllers started as %s are running; the engine knows one", live, n))
+			}
 			continue
 		}
 		for _, c := range w.ctrls {
